@@ -134,6 +134,22 @@ PROPS["C10"] = dict(
     note="Trusted: SQLite trigger semantics, the recursive closures, asyncio scheduling between awaits, solvers, pyvc.",
 )
 
+PROPS["C03"] = dict(
+    modules=["contracts.sched_sql", "contracts.C12_limits", "contracts.C10_dispatch", "contracts.C03_inputs"],
+    decided=["a selected step is ready, and ready means every initial input attached and BUILT/CONFIRMED, no attached "
+             "dynamic input PLANNED/OUTDATED, no VOLATILE input", "_derive_job sanity checks", "a hash is recorded only "
+             "if no input changed unexpectedly, no amended input was unavailable or unfresh and the run succeeded",
+             "ran_concurrently: overlap iff both times exist and start <= stop", "completion writes in one transaction; "
+             "input re-hash before the command and full re-hash after it; drain on unexpected input changes",
+             "mark_completed: accepted defer keeps the step PENDING, capped"],
+    undecided=["'for all interleavings': a producer finishing between a consumer's read and its amend relies on "
+               "monotonic clock readings taken in other tasks (assumed)"],
+    assumptions=["a file whose (mode, size, digest) is unchanged has unchanged content (SHA-256)"],
+    level="SQL predicates of dispatch readiness proved against the property's notion of an available input; the "
+          "executor's classification and completion functions executed symbolically with effect traces.",
+    note="Trusted: monotonic clocks, SQLite, hash contracts of C13, solvers, pyvc.",
+)
+
 NOT_BUILT = {}
 
 _loaded = False
